@@ -587,6 +587,19 @@ fn history_case(rng: &mut Rng, id: &str, g: &str, lang: &str, nlayers: usize, ma
                 ops.push(format!("{} {} {}", r, ph, lb));
             }
         }
+        // the path's ancestors, resolved (and existence-queried) before and after a write / create_dir
+        if (ops[0].starts_with("write ") || ops[0].starts_with("create_dir ")) && rng.chance(1, 3) {
+            let comps: Vec<&str> = p.split('/').filter(|c| !c.is_empty() && *c != ".").collect();
+            let q = *rng.pick(&["resolve", "resolve", "exists", "directory_exists", "file_exists"]);
+            let mut probes: Vec<String> = Vec::new();
+            for k in 1..=comps.len() {
+                probes.push(format!("{} {} {}", q, hexs(&comps[..k].join("/")), if k == comps.len() { lb } else { "0" }));
+            }
+            let mut v = probes.clone();
+            v.extend(ops.drain(..));
+            v.extend(probes);
+            ops = v;
+        }
         // the same call, unlocalised, on the localised path (C14: all operations apply the same mapping)
         if loc && rng.chance(1, 3) {
             if let Some(q) = localized(g, lang, &p) {
@@ -1110,6 +1123,64 @@ fn rw_case(rng: &mut Rng, id: &str, g: &str, lang: &str) -> Vec<String> {
     l
 }
 
+/// A path and each of its ancestor directories, queried (resolve / exists / directory_exists / file_exists)
+/// before and after a write / create_dir below directories that so far exist only in a LOWER layer: the
+/// mutation creates the ancestors in the top layer implicitly, so every answer about them may change.
+fn ancestor_case(id: &str, g: &str, lang: &str, variant: usize) -> Vec<String> {
+    let s0 = vec![b"x".to_vec(), b"yy".to_vec()];
+    let low = build_tree(&[
+        ("data/person/a.bin".to_string(), Ent::File(0)),
+        ("data/deep/er/z.bin".to_string(), Ent::File(0)),
+        ("other/k".to_string(), Ent::File(0)),
+    ]);
+    let mid = build_tree(&[("data/mid.bin".to_string(), Ent::File(1))]);
+    let trees = match variant % 3 {
+        0 => vec![low, vec![]],
+        1 => vec![low, mid, vec![]],
+        _ => vec![low, vec![], vec![]],
+    };
+    let mut l = vec![new_line(id, g, lang, &s0, &[None, None, None, None], &trees)];
+    let loc = if variant % 2 == 0 { "0" } else { "1" };
+    let muts: [(&str, &str); 5] = [
+        ("write", "data/person/b.bin"),
+        ("create_dir", "data/deep/er/new/dir"),
+        ("write", "data/deep/er/z.bin"),
+        ("write", "other/sub/f.bin"),
+        ("create_dir", "data/person"),
+    ];
+    for (mop, target) in muts {
+        // the target, every ancestor, and the localised spelling's ancestors
+        let mut probes: Vec<(String, &str)> = Vec::new();
+        let comps: Vec<&str> = target.split('/').collect();
+        for k in 1..=comps.len() {
+            probes.push((comps[..k].join("/"), "0"));
+            probes.push((comps[..k].join("/"), loc));
+        }
+        if let Some(q) = localized(g, lang, target) {
+            let qc: Vec<&str> = q.trim_end_matches('/').split('/').collect();
+            for k in 1..=qc.len() {
+                probes.push((qc[..k].join("/"), "0"));
+            }
+        }
+        probes.dedup();
+        let ask = |l: &mut Vec<String>| {
+            for (p, lc) in &probes {
+                for q in ["resolve", "exists", "directory_exists", "file_exists"] {
+                    l.push(format!("{} {} {} {}", id, q, hexs(p), lc));
+                }
+            }
+        };
+        ask(&mut l);
+        if mop == "write" {
+            l.push(format!("{} write {} p1 {}", id, hexs(target), loc));
+        } else {
+            l.push(format!("{} create_dir {} {}", id, hexs(target), loc));
+        }
+        ask(&mut l);
+    }
+    l
+}
+
 /// Exact counts: a directory holding exactly `c` entries (spread over two layers, some in both, every
 /// fifth a directory), listed once; one tiny world per count.
 fn count_world(id: &str, g: &str, lang: &str, c: usize) -> Vec<String> {
@@ -1260,6 +1331,13 @@ pub fn gen(seed: u64, tier: &str) -> Vec<String> {
     for variant in 0..4 {
         let id = next_id(&mut n);
         lines.extend(casepair_world(&id, GAMES[variant % 5], "EnglishNA", variant));
+    }
+    for variant in 0..6 {
+        if !thorough && variant >= 2 && (variant + seed as usize) % 2 == 0 {
+            continue;
+        }
+        let id = next_id(&mut n);
+        lines.extend(ancestor_case(&id, GAMES[variant % 5], if variant < 3 { "EnglishNA" } else { "Japanese" }, variant));
     }
     for (gi, g) in GAMES.iter().take(5).enumerate() {
         if !thorough && gi % 2 == (seed as usize) % 2 && gi != 3 {
